@@ -7,8 +7,13 @@ Arrays of shape `(n,3)` are flat row-major float lists (`Proto.floatList`), mass
 
 * `verlet n cons apply dt steps masses q p ff`            → `ok q' p'`
 * `mbdist n cons forced kT ndof masses q z`                    → `ok p`
-* `hmove n cons apply dt steps masses q p ff kT ndof forced sample maxAttempts zs checks`
+* `hmove n cons apply dt steps masses q p ff kT ndof forced sample maxAttempts zs checks lastKE`
                                                            → `ok <true|false> q p lastKE`
+  (`lastKE` = `context.last_kinetic_energy` at entry; `-` = a context just constructed)
+* `hcomp n cons masses q p ff kT ndof lastKE members`      → `ok <true|false> q p lastKE`
+  one call of a plain `CompositeMove`; `members` separated by `|`, each
+  `H/apply/dt/steps/forced/maxAttempts/zs/checks` (Hamiltonian member) or `D/<positions it left>`, `D/fail`
+  (a member that only moves positions / that failed)
 
 `cons`  = `none` | `fixatoms:<mask of 0/1>` | `fixcom` | `fixrot`
 `ff`    = `zero` | `harm:<k>:<ctr>` | `quart:<k>:<g>:<ctr>` | `morse:<D>:<a>:<r0>`
@@ -77,6 +82,31 @@ def parseFF (n : Nat) (s : String) : Option (Arr n Float → Arr n Float) :=
     pure (morseForce d a r0)
   | _ => none
 
+/-- the context at entry: `lastKE` given as bits, or `-` for a context just constructed -/
+def parseCtx {n : Nat} (m : Col n Float) (q p : Arr n Float) (lastKE : String) : Option (HCtx n Float) :=
+  if lastKE = "-" then some (HCtx.fresh m q p)
+  else do
+    let k ← Proto.floatOfBits lastKE
+    pure ⟨q, p, k, q, q⟩
+
+def parseMember (n : Nat) (c : Cons n Float) (F : Arr n Float → Arr n Float) (m : Col n Float) (kT ndof : Float)
+    (s : String) : Option (Member n Float) :=
+  match s.splitOn "/" with
+  | ["D", "fail"] => some (.disp none)
+  | ["D", q'] => do
+    let q' ← parseArr n q'
+    pure (.disp (some q'))
+  | ["H", apply, dt, steps, forced, maxAttempts, zs, checks] => do
+    let apply ← parseBool apply
+    let dt ← Proto.floatOfBits dt
+    let steps ← steps.toNat?
+    let forced ← parseBool forced
+    let maxAttempts ← maxAttempts.toNat?
+    let zs ← parseArrs n zs
+    let checks ← parseChecks checks
+    pure (.ham ⟨c, apply, F, m, dt, steps, kT, ndof, forced⟩ maxAttempts zs checks)
+  | _ => none
+
 def handle : List String → String
   | ["verlet", n, cons, apply, dt, steps, masses, q, p, ff] =>
     match n.toNat? with
@@ -109,7 +139,7 @@ def handle : List String → String
         pure (Tab.get (maxwellBoltzmannT c m kT (Num.ofNat ndof) forced q z)) : Option (Arr n Float)) with
       | some p => s!"ok {showArr p}"
       | none => "bad-op"
-  | ["hmove", n, cons, apply, dt, steps, masses, q, p, ff, kT, ndof, forced, sample, maxAttempts, zs, checks] =>
+  | ["hmove", n, cons, apply, dt, steps, masses, q, p, ff, kT, ndof, forced, sample, maxAttempts, zs, checks, lastKE] =>
     match n.toNat? with
     | none => "bad-op"
     | some n =>
@@ -130,8 +160,26 @@ def handle : List String → String
         let zs ← parseArrs n zs
         let checks ← parseChecks checks
         let g : HCfg n Float := ⟨c, apply, F, m, dt, steps, kT, Num.ofNat ndof, forced⟩
-        pure (attemptDisplacement g sample maxAttempts zs checks ⟨q, p, 0.0 / 0.0, q, q⟩)
+        let c0 ← parseCtx m q p lastKE
+        pure (attemptDisplacement g sample maxAttempts zs checks c0)
           : Option (Bool × HCtx n Float)) with
+      | some (b, c) => s!"ok {b} {showArr c.q} {showArr c.p} {Proto.bitsOfFloat c.lastKE}"
+      | none => "bad-op"
+  | ["hcomp", n, cons, masses, q, p, ff, kT, ndof, lastKE, members] =>
+    match n.toNat? with
+    | none => "bad-op"
+    | some n =>
+      match (do
+        let m ← parseCol n masses
+        let c ← parseCons n m cons
+        let q ← parseArr n q
+        let p ← parseArr n p
+        let F ← parseFF n ff
+        let kT ← Proto.floatOfBits kT
+        let ndof ← ndof.toNat?
+        let ms ← (members.splitOn "|").mapM (parseMember n c F m kT (Num.ofNat ndof))
+        let c0 ← parseCtx m q p lastKE
+        pure (compositeCall ms c0) : Option (Bool × HCtx n Float)) with
       | some (b, c) => s!"ok {b} {showArr c.q} {showArr c.p} {Proto.bitsOfFloat c.lastKE}"
       | none => "bad-op"
   | _ => "bad-op"
